@@ -32,6 +32,8 @@ type fakeStream struct {
 	out     []byte
 	writes  [][]byte // one entry per Write call
 	wrFail  int      // fail the Write call with this index (-1 never)
+	wrPartial int    // bytes the failing Write call accepts before it fails
+	onWrite func(call int) // runs at the start of a Write call, before its bytes are consumed (a slow stream)
 	closed  bool
 	// live mode (engine-level sessions): reads block until data or close
 	live      bool
@@ -93,9 +95,17 @@ func (s *fakeStream) Write(p []byte) (int, error) {
 			return 0, net.ErrClosed
 		}
 	}
+	if s.onWrite != nil {
+		s.onWrite(len(s.writes))
+	}
 	if len(s.writes) == s.wrFail {
-		s.writes = append(s.writes, nil)
-		return 0, errors.New("injected write failure")
+		k := s.wrPartial
+		if k > len(p) {
+			k = len(p)
+		}
+		s.out = append(s.out, p[:k]...)
+		s.writes = append(s.writes, append([]byte(nil), p[:k]...))
+		return k, errors.New("injected write failure")
 	}
 	s.out = append(s.out, p...)
 	s.writes = append(s.writes, append([]byte(nil), p...))
